@@ -573,10 +573,9 @@ _RESTATES = {"MySQLChange": {"type", "null", "default", "comment", "autoinc"},
 _NOTHING = object()
 
 
-def _deviations(h, stmts):
-    """set of deviation kinds of a completed call: 'autoinc' (requested autoincrement left alone), 'other'"""
+def _req_stated(h):
+    """requested / stated value per attribute (_NOTHING = not requested / not stated), in the ids of the encoders"""
     r, e = h["req"], h["ex"]
-    dev = set()
     tri = lambda code, v: _NOTHING if code == "F" else (None if code in "NE" else
                                                         (v[code][0] if isinstance(v, dict) else v))
     opt = lambda x: _NOTHING if x is None else x
@@ -584,6 +583,13 @@ def _deviations(h, stmts):
            "default": tri(r["default"], REQ_DEFAULT), "comment": tri(r["comment"], 31), "autoinc": opt(r["autoinc"])}
     stated = {"name": 1, "type": opt(e["type"]), "null": opt(e["null"]), "default": tri(e["default"], EX_DEFAULT),
               "comment": 30 if e["comment"] == "S" else _NOTHING, "autoinc": opt(e["autoinc"])}
+    return req, stated
+
+
+def _deviations(h, stmts):
+    """set of deviation kinds of a completed call: 'autoinc' (requested autoincrement left alone), 'other'"""
+    dev = set()
+    req, stated = _req_stated(h)
     reading = {"null": True, "default": None, "comment": None, "autoinc": False}
     last, restated, cur = {}, set(), 1
     want_t = "tS" if h["schema"] else "tN"
@@ -634,3 +640,112 @@ def classify(h, out):
             return "C13-pg-plain-default-on-identity-ignored"
         return None
     return "C13-autoincrement-ignored"
+
+
+# ----------------------------------------------------------------------------- canaries
+# Corruptions of an observed output that VIOLATE C13_holds by construction, one per clause of the property:
+#   target   a statement moved to the other schema                            (every statement targets schema + table)
+#   column   a statement made to name the wrong column                        (run = Some _: addressing)
+#   reorder  the rename moved in front of a statement that names the old name (order relative to the rename)
+#   value    one literal / flag of one statement changed                      (effect = override; no_invention for restated values)
+#   drop     the only statement that sets a requested attribute removed       (effect = override)
+#   extra    a statement setting a comment nobody requested to a foreign value added   (no other attribute changes)
+#   error    success turned into an exception / an exception into success     (raises iff unsupported)
+_COLUMN_KINDS = {"SetNull", "SetDefault", "SetType", "SetComment", "MySQLModify", "MySQLAlterDefault", "MSSQLAlterNull",
+                 "MSSQLAlterType", "MSSQLDropDefault", "MSSQLAddDefault", "AddIdentity", "DropIdentity", "AlterIdentity"}
+
+
+def _other_type(name):
+    return "T0" if name != "T0" else "T1"
+
+
+def _change_value(st):
+    """st = [target, kind, col, args...] -> the same statement with one value changed, or None"""
+    t, kind, c, args = st[0], st[1], st[2], list(st[3:])
+    if kind in ("SetNull",):
+        args[0] = not args[0]
+    elif kind in ("SetDefault", "MySQLAlterDefault", "SetComment"):
+        args[0] = 99 if args[0] is None else args[0] + 1
+    elif kind in ("MSSQLAddDefault", "Rename", "MSSQLSpRename", "AddIdentity"):
+        args[0] = args[0] + 1
+    elif kind == "SetType":
+        args[0] = _other_type(args[0])
+    elif kind == "MSSQLAlterNull":
+        args[1] = not args[1]
+    elif kind == "MSSQLAlterType":
+        args[0] = _other_type(args[0])
+    elif kind == "MySQLModify":
+        args[0] = dict(args[0], null=not args[0]["null"])
+    elif kind == "MySQLChange":
+        args[1] = dict(args[1], null=not args[1]["null"])
+    elif kind == "AlterIdentity":
+        args[0] = args[0] + 1
+    else:
+        return None
+    return [t, kind, c] + args
+
+
+def _canaries(h, rec):
+    """(kind, corrupted output) pairs"""
+    out = rec.get("out") or {}
+    stmts, err = [list(s) for s in out.get("stmts", [])], out.get("err")
+    d = h["d"]
+    enc = lambda ss, e: encode_out([(s[0], tuple(s[1:])) for s in ss], e, d)
+    cans = []
+    if err is not None:
+        # raised although unsupported = true is required for that: as a success it violates "raises iff unsupported"
+        cans.append(("error", enc(stmts, None)))
+        if stmts:
+            s0 = list(stmts[0])
+            s0[0] = "tN" if s0[0] == "tS" else "tS"
+            cans.append(("target", enc([s0] + stmts[1:], err)))
+        return [c for c in cans if c[1] != rec["cout"]]
+    if not stmts or _deviations(h, stmts):
+        return []          # nothing emitted, or a known-finding case whose observed output already fails the decider
+    req, stated = _req_stated(h)
+    # error: a completed, supported call reported as raising
+    cans.append(("error", enc(stmts, "CompileError")))
+    # target
+    s0 = list(stmts[-1])
+    s0[0] = "tN" if s0[0] == "tS" else "tS"
+    cans.append(("target", enc(stmts[:-1] + [s0], None)))
+    # column: the first statement that names a column names another one
+    for k, st in enumerate(stmts):
+        if st[2] is not None:
+            bad = list(st)
+            bad[2] = 2 if st[2] == 1 else 1
+            cans.append(("column", enc(stmts[:k] + [bad] + stmts[k + 1:], None)))
+            break
+    # reorder: rename first, a statement naming the old name after it
+    ren = [k for k, st in enumerate(stmts) if st[1] in ("Rename", "MSSQLSpRename") and st[3] != st[2]]
+    if ren and any(st[1] in _COLUMN_KINDS for st in stmts[:ren[0]]):
+        k = ren[0]
+        cans.append(("reorder", enc([stmts[k]] + stmts[:k] + stmts[k + 1:], None)))
+    # value: one literal of the first statement that has one
+    for k, st in enumerate(stmts):
+        bad = _change_value(st)
+        if bad is not None:
+            cans.append(("value", enc(stmts[:k] + [bad] + stmts[k + 1:], None)))
+            break
+    # drop: the only statement that sets a requested attribute whose stated value is not already the requested one
+    assigns = [_ASSIGN[st[1]](tuple(st[3:])) for st in stmts]
+    done = False
+    for a in ("type", "null", "default", "comment", "name"):
+        if done or req[a] is _NOTHING or (stated[a] is not _NOTHING and stated[a] == req[a]):
+            continue
+        setters = [k for k, asg in enumerate(assigns) if a in asg]
+        if len(setters) == 1 and len(assigns[setters[0]]) == 1:
+            k = setters[0]
+            cans.append(("drop", enc(stmts[:k] + stmts[k + 1:], None)))
+            done = True
+    # extra: a comment nobody asked for, set last (so that nothing restates over it), on the column's current name
+    if req["comment"] is _NOTHING:
+        cur = 1
+        for asg in assigns:
+            cur = asg.get("name", cur)
+        cans.append(("extra", enc(stmts + [[stmts[0][0], "SetComment", cur, 77]], None)))
+    return [c for c in cans if c[1] != rec["cout"]]
+
+
+def canary(h, rec):
+    return [term for _, term in _canaries(h, rec)]
